@@ -23,10 +23,12 @@ PLANS = {
     "C05": [("heapsim", "asan", "soundness", 40000, 1500000), ("heapsim", "noguard", "soundness", 20000, 700000), ("heapsim", "asan", "accounting", 8000, 200000), ("heapsim", "asan", "oom", 8000, 200000)],
     "C06": [("heapsim", "asan", "misuse", 50000, 2000000), ("heapsim", "noguard", "misuse", 15000, 500000), ("heapsim", "asan", "accounting", 8000, 200000)],
     "C07": [("runsim", "asan", "leaks", 50000, 1500000), ("runsim", "noexc", "leaks", 15000, 500000)],
+    "C11": [("runsim", "asan", "process_syn", 60000, 2000000), ("runsim", "plain", "process", 8000, 300000), ("runsim", "noexc", "process_syn", 15000, 400000)],
     "C14": [("heapsim", "asan", "diagnostics", 30000, 1000000), ("heapsim", "noguard", "diagnostics", 10000, 300000), ("heapsim", "asan", "accounting", 8000, 200000), ("runsim", "asan", "leaks", 10000, 300000)],
     "C15": [("heapsim", "asan", "oom", 50000, 2000000), ("heapsim", "noguard", "oom", 15000, 500000)],
     "C16": [("runsim", "asan", "junit", 30000, 800000), ("runsim", "noexc", "junit", 8000, 200000)],
     "C17": [("runsim", "asan", "pointers", 40000, 1500000), ("runsim", "noexc", "pointers", 15000, 500000), ("runsim", "asan", "lifecycle", 10000, 300000)],
+    "C18": [("cachesim", "asan", "cache", 200000, 6000000)],
     "C20": [("runsim", "asan", "teamcity", 40000, 1200000), ("runsim", "noexc", "teamcity", 8000, 200000)],
 }
 # properties whose statement contains a memory-safety / no-crash / no-hang clause: a crash class is attributed to them
@@ -48,7 +50,13 @@ COMPONENTS["heapsim"] = {
     "simulated": ["platform heap (PlatformSpecificMalloc/Realloc/Free -> SimHeap: fixed-address bump arena, address steering mod 73, dirty memory, n-th call returns NULL, size limit, ASan-poisoned gaps and freed blocks)",
                   "allocators with arbitrary type names and injected NULL results (SimAllocator)", "MemoryLeakFailure (recording reporter that returns)", "PlatformSpecificVSNprintf (bounds-checking pass-through for the 4096-byte buffers)", "PlatformSpecificMemCpy (NULL-checking pass-through)"],
 }
+COMPONENTS["cachesim"] = {
+    "real": ["src/CppUTest/SimpleStringInternalCache.cpp (cache, size classes, used/free lists, clear operations, one-time warning)", "UtestShell::print path of the warning"],
+    "simulated": ["underlying TestMemoryAllocator (recording allocator over real malloc so that ASan sees misuse; dirty memory; exact outstanding set)", "console stream"],
+}
 RULES = {
+    "cachesim": "one evaluation = one generated history of 1-160 alloc(size)/dealloc(ptr,size')/foreign or double release/clearCache/clearAll/hasFree/destroy-and-recreate operations over sizes 0..1024 (dense at every class boundary) "
+                "against a fresh cache over the recording allocator; a shadow map is compared after every operation. Non-trivial = at least one buffer was handed out; distinct = distinct hashes of (operations, outstanding-allocation counts, verdicts).",
     "heapsim": "one evaluation = one generated history of 1-400 operations (alloc/free/realloc through the local API with inline or separate bookkeeping and through the global operator new / cpputest_malloc routing, period/stage/clear/report "
                "operations, byte flips, foreign frees, wrapper allocators, failure designations, out-of-memory countdowns) against a fresh detector over the simulated heap; oracles run after every operation. "
                "Non-trivial = at least one tracked allocation succeeded; distinct = distinct hashes of (operations, allocation numbers, periods, report texts, verdicts).",
@@ -58,6 +66,8 @@ RULES = {
 }
 
 ASSUMPTIONS = {
+    "cachesim": ["a release names a size of the buffer's own class (the property's precondition); foreign pointers are readable C strings (the warning prints them)",
+                 "double releases are generated only for cached classes (the memory is still owned by the cache); allocator failures are not injected (the cache has no failure path)", "seeded sampling: evidence, not proof"],
     "heapsim": ["failures of the separate bookkeeping-node allocation and the combination nothrow-new x platform malloc returning NULL are outside the fault model (DESIGN 9)",
                 "the message buffer is cleared (startChecking + period restore) before operations whose report category is compared, as at the start of every test; the diagnostics profile does not clear",
                 "period semantics follow the header: a query for 'enabled' also sees blocks stamped 'checking'", "seeded sampling: a clean batch is evidence, not proof"],
